@@ -276,7 +276,45 @@ def gen_x5s(thorough):
                 yield 'X5s%d:' % pi + ','.join(str(i) for i in tup), pre + '\n'.join(tl[i] for i in tup) + '\n'
 
 
-FAMILIES = {'x1': gen_x1, 'x1s': gen_x1_short, 'x2': gen_x2, 'x3': gen_x3, 'x4': gen_x4, 'x5': gen_x5, 'x5s': gen_x5s, 'x6': gen_x6}
+# X7: operands that are *identifiers* whose spelling starts or ends with a keyword of the language ('installed', 'notx', 'order',
+# 'android', 'ifx', 'truex', ...), at every operand position of every operator and unary prefix, with one and with several
+# blanks / tabs between 'not' and its operand.  The keywords are words: an identifier merely containing one is an identifier.
+X7_KEYWORDS = ['in', 'not', 'and', 'or', 'if', 'else', 'elif', 'endif', 'foreach', 'endforeach', 'true', 'false', 'break', 'continue']
+X7_GAPS = [' ', '  ', '\t']
+
+
+def x7_names():
+    names = []
+    for kw in X7_KEYWORDS:
+        names += [kw + 'x', kw + '_', kw + '1', 'x' + kw, '_' + kw]
+    names += ['installed', 'inner', 'index', 'notin', 'not_in', 'innot', 'android', 'orin', 'inor']
+    return names
+
+
+def gen_x7(thorough):
+    vals = [('true', 'false'), ('2', '3'), ("['a']", "'a'")] if thorough else [('true', 'false'), ('2', "[2]")]
+    names = x7_names()
+    for n in names:
+        other = 'zz'
+        for va, vb in vals:
+            pre = '%s = %s\n%s = %s\n' % (n, va, other, vb)
+            for op in OPS:
+                for u1 in UNS:
+                    for u2 in UNS:
+                        yield 'X7:%s%s,%s' % (u1.strip(), op, u2.strip()), pre + 'x = %s%s %s %s%s\n' % (u1, n, op, u2, other)
+                        yield 'X7r:%s%s,%s' % (u1.strip(), op, u2.strip()), pre + 'x = %s%s %s %s%s\n' % (u1, other, op, u2, n)
+            for g in X7_GAPS:
+                yield 'X7:not-gap', pre + 'x = not%s%s\n' % (g, n)
+                yield 'X7:not-gap-paren', pre + 'x = not%s(%s)\n' % (g, n)
+                yield 'X7:notin-gap', pre + 'x = %s not%sin [%s]\n' % (n, g, other)
+                yield 'X7:in-gap', pre + 'x = %s%sin%s[%s]\n' % (n, g, g, n)
+                yield 'X7:ternary', pre + 'x = %s ?%s%s : %s\n' % (va if va in ('true', 'false') else 'true', g, n, other)
+                yield 'X7:if', pre + 'x = 0\nif not%s%s\n  x = 1\nelif %s\n  x = 2\nendif\n' % (g, n, n)
+                yield 'X7:foreach', pre + 'x = []\nforeach %s : [%s]\n  x += [%s]\nendforeach\n' % (n, vb, n)
+
+
+FAMILIES = {'x1': gen_x1, 'x1s': gen_x1_short, 'x2': gen_x2, 'x3': gen_x3, 'x4': gen_x4, 'x5': gen_x5, 'x5s': gen_x5s, 'x6': gen_x6,
+            'x7': gen_x7}
 
 # ------------------------------------------------------------------------------------------------------------
 _pool = None
@@ -702,7 +740,7 @@ def main():
         sys.exit(0 if v in ('ok', 'unspec') else 1)
     fams = [f for f in FAMILIES if ck.want(f)]
     jobs = []
-    nsh = {'x1': 4 * NCPU, 'x1s': NCPU, 'x2': NCPU, 'x3': NCPU, 'x4': NCPU, 'x5': 2 * NCPU, 'x5s': 2 * NCPU, 'x6': 4}
+    nsh = {'x1': 4 * NCPU, 'x1s': NCPU, 'x2': NCPU, 'x3': NCPU, 'x4': NCPU, 'x5': 2 * NCPU, 'x5s': 2 * NCPU, 'x6': 4, 'x7': NCPU}
     for f in fams:
         for s in range(nsh[f]):
             jobs.append((f, s, nsh[f], ck.thorough))
